@@ -1,6 +1,8 @@
 import Mdsort.Model.Decode
 import Mdsort.Spec.Decode
+import Mdsort.Spec.DecodeRFC
 import Mdsort.Proofs.Decode
+import Mdsort.Proofs.DecodeRFC
 import Mdsort.Proofs.L0Buffer
 
 /-!
@@ -26,6 +28,13 @@ the PROPERTY TEXT rather than the RFCs, where these differ:
   with blanks inside, and glued to other text; the charset is ignored; a decoded B word is cut at its first NUL.
 The correspondence is therefore "model = property-text decoder", not "model = MIME decoder"; the differences to the RFCs
 are visible here and nowhere hidden in the proofs.
+
+Specification independence (second half of this file).  `Spec/DecodeRFC.lean` writes the RFC readings down separately:
+`Spec.qpRFC` (RFC 2045 section 6.7: soft line break = `=` blanks* (LF | CRLF)) and `Spec.rfc2047RFC` (RFC 2047: tokens,
+non-empty encoded-text without blanks or `?`, words delimited by linear white space; a value with a malformed word is
+returned raw, as C10 / C16 word it) with `Spec.rfc2047PerWord` (malformed words left alone one by one, RFC 2047 6.3).
+`C16_qp_vs_rfc(_iff)` and `C16_rfc2047_vs_rfc` state on which inputs `decode.c` IS the RFC decoder; the
+`C16_*_deviation*` theorems evaluate model and RFC reading on one witness per kind of input where they differ.
 -/
 
 namespace Mdsort.Props
@@ -101,5 +110,135 @@ inside, missing padding, text after the padding, a foreign character. -/
 example : Model.b64pton (ofString "aGVs\n bG8=") 11 = some (ofString "hello") ∧ (ofString "aGVs\n bG8=").length < 11 ∧
     Model.b64pton (ofString "aGVsbG8") 8 = none ∧ Model.b64pton (ofString "aGVsbG8=x") 10 = none ∧
     Model.b64pton (ofString "aGV$bG8=") 9 = none := by decide +kernel
+
+/-! ## The model against the RFC readings (`Spec/DecodeRFC.lean`) -/
+
+/-- `quoted_printable_decode_buffer` is the RFC 2045 decoder `Spec.qpRFC` on every input whose soft line breaks all
+have the bare form `=LF`: `QpLFOnly s` says that no `=` of `s` is followed by blanks* CR LF, or by blanks+ LF. -/
+theorem C16_qp_vs_rfc (us : Bool) (s : Bytes) (h : Spec.QpLFOnly s = true) :
+    Model.qpLoop us s [] = Spec.qpRFC us s := by
+  rw [C16_qp]; exact Proofs.qp_eq_qpRFC us s h
+
+/-- The hypothesis of `C16_qp_vs_rfc` is exact: the model differs from `Spec.qpRFC` on EVERY input that contains a
+`=CRLF` or a soft line break with transport padding. -/
+theorem C16_qp_vs_rfc_iff (us : Bool) (s : Bytes) :
+    Model.qpLoop us s [] = Spec.qpRFC us s ↔ Spec.QpLFOnly s = true := by
+  rw [C16_qp]; exact Proofs.qp_eq_qpRFC_iff us s
+
+/-- A simpler sufficient condition: no CR anywhere in `s` and no `=` directly followed by a blank. -/
+theorem C16_qp_vs_rfc_simple (us : Bool) (s : Bytes) (h : Spec.QpNoCRNoPad s = true) :
+    Model.qpLoop us s [] = Spec.qpRFC us s :=
+  C16_qp_vs_rfc us s (Proofs.QpLFOnly_of_NoCRNoPad s h)
+
+/-- Non-vacuity: soft line breaks, escapes, a lone `=`, lower-case hex, a CR and blanks that belong to no soft line
+break all satisfy the hypotheses, and something is decoded. -/
+example : Spec.QpLFOnly (ofString "a=\nb=3Dc =\n=\n=3d \r\n x=") = true ∧
+    Spec.qpRFC false (ofString "a=\nb=3Dc =\n=\n=3d \r\n x=") = ofString "ab=c =3d \r\n x=" ∧
+    Spec.QpNoCRNoPad (ofString "a=\nb=3Dc =\n=\n=3d \n x=") = true := by decide +kernel
+
+/-- Deviation of decode.c from RFC 2045 (1): the canonical soft line break `=CRLF` is not removed. -/
+theorem C16_qp_deviation_crlf :
+    Model.qpLoop false (ofString "foo=\r\nbar") [] = ofString "foo=\r\nbar" ∧
+    Spec.qpRFC false (ofString "foo=\r\nbar") = ofString "foobar" := by decide +kernel
+
+/-- Deviation of decode.c from RFC 2045 (2): transport padding (blanks between `=` and the line end, rule 3) makes
+the soft line break invisible to decode.c. -/
+theorem C16_qp_deviation_padding :
+    Model.qpLoop false (ofString "foo= \nbar=\t\nbaz") [] = ofString "foo= \nbar=\t\nbaz" ∧
+    Spec.qpRFC false (ofString "foo= \nbar=\t\nbaz") = ofString "foobarbaz" := by decide +kernel
+
+/-- `rfc2047_decode` is the RFC 2047 decoder `Spec.rfc2047RFC` on every well-formed value: (1) every `=?` begins an
+encoded word of the RFC grammar (charset and encoding tokens, non-empty encoded-text of printable characters without
+`?`, B or Q, valid base64 in a B word) that is delimited by linear white space or the ends of the value, (2) no B word
+decodes to a NUL, (3) the white space between adjacent words holds no VT / FF. -/
+theorem C16_rfc2047_vs_rfc (s : Bytes) (h : Spec.WellFormed2047 s = true) :
+    Model.rfc2047DecodeRaw s = Spec.rfc2047RFC s := by
+  rw [C16_rfc2047]; exact Proofs.rfc2047_eq_RFC s h
+
+/-- On well-formed values the property reading (raw fallback per VALUE) and the reading of RFC 2047 itself (a malformed
+word is left alone, word by word) are the same function; they differ only on values containing a malformed word. -/
+theorem C16_rfc2047_readings_agree (s : Bytes) (h : Spec.WellFormed2047 s = true) :
+    Spec.rfc2047RFC s = Spec.rfc2047PerWord s :=
+  Proofs.rfc2047RFC_eq_perWord s h
+
+/-- What the callers see (C strings), under the same hypotheses. -/
+theorem C16_rfc_cstring_view (s : Bytes) :
+    (Spec.QpLFOnly s = true → Model.qpDecode s = cstr (Spec.qpRFC false s)) ∧
+    (Spec.WellFormed2047 s = true → Model.rfc2047Decode s = cstr (Spec.rfc2047RFC s)) := by
+  refine ⟨fun h => ?_, fun h => ?_⟩
+  · simp [Model.qpDecode, Model.qpDecodeRaw, C16_qp_vs_rfc false s h]
+  · simp [Model.rfc2047Decode, C16_rfc2047_vs_rfc s h]
+
+/-- Non-vacuity of `WellFormed2047`: B and Q words in both letter cases, adjacent words over a folded line, text
+around them, a `=` before the closing `?=`, a lone `?=` and `=` in the text. -/
+example : Spec.WellFormed2047 (ofString "Re: =?utf-8?Q?a_b=3D?=\n =?ISO-8859-1?b?Yw==?= d ?= = =?x?q?e=?=") = true ∧
+    Spec.rfc2047RFC (ofString "Re: =?utf-8?Q?a_b=3D?=\n =?ISO-8859-1?b?Yw==?= d ?= = =?x?q?e=?=") =
+      ofString "Re: a b=c d ?= = e=" := by decide +kernel
+
+/-! One evaluated witness for each kind of input outside `WellFormed2047` on which `rfc2047_decode` is NOT the RFC
+decoder (model value first, RFC reading second). -/
+
+/-- Leniency (1): an empty charset and an empty encoded-text are accepted; the RFC grammar wants `1*`. -/
+theorem C16_rfc2047_deviation_empty :
+    Model.rfc2047DecodeRaw (ofString "=??q?a?=") = ofString "a" ∧
+    Spec.rfc2047RFC (ofString "=??q?a?=") = ofString "=??q?a?=" ∧
+    Model.rfc2047DecodeRaw (ofString "x =?u?q??= y") = ofString "x  y" ∧
+    Spec.rfc2047RFC (ofString "x =?u?q??= y") = ofString "x =?u?q??= y" := by decide +kernel
+
+/-- Leniency (2): blanks inside the encoded-text and an especial in the charset are accepted. -/
+theorem C16_rfc2047_deviation_blank_in_word :
+    Model.rfc2047DecodeRaw (ofString "=?x?q?a b?=") = ofString "a b" ∧
+    Spec.rfc2047RFC (ofString "=?x?q?a b?=") = ofString "=?x?q?a b?=" ∧
+    Model.rfc2047DecodeRaw (ofString "=?a b?q?x?=") = ofString "x" ∧
+    Spec.rfc2047RFC (ofString "=?a b?q?x?=") = ofString "=?a b?q?x?=" := by decide +kernel
+
+/-- Leniency (3): `?` inside the encoded-text - the text ends at the first `?=`, so a single `?` is payload and what
+follows the first `?=` is text. -/
+theorem C16_rfc2047_deviation_question_mark :
+    Model.rfc2047DecodeRaw (ofString "=?x?q?a?b?=") = ofString "a?b" ∧
+    Spec.rfc2047RFC (ofString "=?x?q?a?b?=") = ofString "=?x?q?a?b?=" ∧
+    Model.rfc2047DecodeRaw (ofString "=?x?q?a?=?=") = ofString "a?=" ∧
+    Spec.rfc2047RFC (ofString "=?x?q?a?=?=") = ofString "=?x?q?a?=?=" := by decide +kernel
+
+/-- Leniency (4): a word glued to the text before or behind it is decoded; RFC 2047 5 (1) wants linear white space on
+both sides (in an unstructured field).  (In a comment of a structured field `(=?x?q?a?=)` is legitimate; decode.c and
+`rfc2047RFC` both know no field structure.) -/
+theorem C16_rfc2047_deviation_glued :
+    Model.rfc2047DecodeRaw (ofString "x=?u?q?a?=") = ofString "xa" ∧
+    Spec.rfc2047RFC (ofString "x=?u?q?a?=") = ofString "x=?u?q?a?=" ∧
+    Model.rfc2047DecodeRaw (ofString "=?u?q?a?=x") = ofString "ax" ∧
+    Spec.rfc2047RFC (ofString "=?u?q?a?=x") = ofString "=?u?q?a?=x" ∧
+    Model.rfc2047DecodeRaw (ofString "=?u?q?a?==?u?q?b?=") = ofString "ab" ∧
+    Spec.rfc2047RFC (ofString "=?u?q?a?==?u?q?b?=") = ofString "=?u?q?a?==?u?q?b?=" := by decide +kernel
+
+/-- A valid word next to a malformed one stays ENCODED: decode.c and the property reading agree (C10: "a value
+containing a malformed encoded word is matched in its raw form"); RFC 2047 itself would decode the valid word. -/
+theorem C16_rfc2047_deviation_all_or_nothing :
+    Model.rfc2047DecodeRaw (ofString "=?u?q?a?= =?u?x?b?=") = ofString "=?u?q?a?= =?u?x?b?=" ∧
+    Spec.rfc2047RFC (ofString "=?u?q?a?= =?u?x?b?=") = ofString "=?u?q?a?= =?u?x?b?=" ∧
+    Spec.rfc2047PerWord (ofString "=?u?q?a?= =?u?x?b?=") = ofString "a =?u?x?b?=" ∧
+    Model.rfc2047DecodeRaw (ofString "=?u?q?a?= =?") = ofString "=?u?q?a?= =?" ∧
+    Spec.rfc2047PerWord (ofString "=?u?q?a?= =?") = ofString "a =?" := by decide +kernel
+
+/-- The NUL cut: a B word is appended with `"%s"`, so its octets after a NUL are lost while the text behind the word
+is kept. -/
+theorem C16_rfc2047_deviation_nul_cut :
+    Model.rfc2047DecodeRaw (ofString "=?u?B?YQBi?= c") = ofString "a c" ∧
+    Spec.rfc2047RFC (ofString "=?u?B?YQBi?= c") = ofString "a\x00b c" ∧
+    Model.rfc2047Decode (ofString "=?u?B?YQBi?= c") = ofString "a c" ∧
+    cstr (Spec.rfc2047RFC (ofString "=?u?B?YQBi?= c")) = ofString "a" := by decide +kernel
+
+/-- `isspace` against linear white space: VT / FF between two words are dropped with the blanks. -/
+theorem C16_rfc2047_deviation_vt :
+    Model.rfc2047DecodeRaw (ofString "=?u?q?a?= \x0b =?u?q?b?=") = ofString "ab" ∧
+    Spec.rfc2047RFC (ofString "=?u?q?a?= \x0b =?u?q?b?=") = ofString "a \x0b b" := by decide +kernel
+
+/-- No deviation, but worth seeing: the charset is ignored by decode.c AND by `rfc2047RFC` (octets are not converted;
+a reader displaying the header would convert), and lower-case hex is copied by both. -/
+example : Model.rfc2047DecodeRaw (ofString "=?utf-8?q?=E4?=") = [0xE4] ∧
+    Model.rfc2047DecodeRaw (ofString "=?iso-8859-1?q?=E4?=") = [0xE4] ∧
+    Spec.rfc2047RFC (ofString "=?utf-8?q?=E4?=") = [0xE4] ∧ Spec.rfc2047RFC (ofString "=?iso-8859-1?q?=E4?=") = [0xE4] ∧
+    Model.rfc2047DecodeRaw (ofString "=?u?q?=e4?=") = ofString "=e4" ∧
+    Spec.rfc2047RFC (ofString "=?u?q?=e4?=") = ofString "=e4" := by decide +kernel
 
 end Mdsort.Props
